@@ -52,7 +52,9 @@ func init() {
 	replayers["c12.blind"] = func(c *Ctx, a []string) string {
 		cv := curves[a[0]]
 		bk, _ := ecdsa.CreateKey(cv, unhx(a[3]))
-		p, err := ecdsa.BlindPublicKeyWithContext(cv, &ecdsa.PublicKey{Curve: cv, X: parseBig(a[1]), Y: parseBig(a[2])}, bk, unhx(a[4]))
+		// the context is handed over in one long-lived buffer that the caller overwrites for the next call
+		c12ctxBuf = append(c12ctxBuf[:0], unhx(a[4])...)
+		p, err := ecdsa.BlindPublicKeyWithContext(cv, &ecdsa.PublicKey{Curve: cv, X: parseBig(a[1]), Y: parseBig(a[2])}, bk, c12ctxBuf)
 		if err != nil {
 			return "err"
 		}
@@ -61,7 +63,8 @@ func init() {
 	replayers["c12.unblind"] = func(c *Ctx, a []string) string {
 		cv := curves[a[0]]
 		bk, _ := ecdsa.CreateKey(cv, unhx(a[3]))
-		p, err := ecdsa.UnblindPublicKeyWithContext(cv, &ecdsa.PublicKey{Curve: cv, X: parseBig(a[1]), Y: parseBig(a[2])}, bk, unhx(a[4]))
+		c12ctxBuf = append(c12ctxBuf[:0], unhx(a[4])...)
+		p, err := ecdsa.UnblindPublicKeyWithContext(cv, &ecdsa.PublicKey{Curve: cv, X: parseBig(a[1]), Y: parseBig(a[2])}, bk, c12ctxBuf)
 		if err != nil {
 			return "err"
 		}
@@ -150,22 +153,30 @@ func init() {
 		return fmt.Sprintf("ok(%d) %s", rd.served, hxv(sk))
 	}
 	// c15.* : Ed25519 key blinding
+	// blind and context are handed over as adjacent parts of one caller buffer (blind = buf[:n], context = buf[n:])
+	adjacent := func(blind, ctx []byte) ([]byte, []byte) {
+		buf := append(append(make([]byte, 0, len(blind)+len(ctx)), blind...), ctx...)
+		return buf[:len(blind)], buf[len(blind):]
+	}
 	replayers["c15.blind"] = func(c *Ctx, a []string) string {
-		p, err := ed25519.BlindPublicKeyWithContext(unhx(a[0]), unhx(a[1]), unhx(a[2]))
+		bl, cx := adjacent(unhx(a[1]), unhx(a[2]))
+		p, err := ed25519.BlindPublicKeyWithContext(unhx(a[0]), bl, cx)
 		if err != nil {
 			return "err"
 		}
 		return "ok " + hxv(p)
 	}
 	replayers["c15.unblind"] = func(c *Ctx, a []string) string {
-		p, err := ed25519.UnblindPublicKeyWithContext(unhx(a[0]), unhx(a[1]), unhx(a[2]))
+		bl, cx := adjacent(unhx(a[1]), unhx(a[2]))
+		p, err := ed25519.UnblindPublicKeyWithContext(unhx(a[0]), bl, cx)
 		if err != nil {
 			return "err"
 		}
 		return "ok " + hxv(p)
 	}
 	replayers["c15.sign"] = func(c *Ctx, a []string) string {
-		return "ok " + hxv(ed25519.BlindKeySignWithContext(ed25519.NewKeyFromSeed(unhx(a[0])), unhx(a[1]), unhx(a[2]), unhx(a[3])))
+		bl, cx := adjacent(unhx(a[2]), unhx(a[3]))
+		return "ok " + hxv(ed25519.BlindKeySignWithContext(ed25519.NewKeyFromSeed(unhx(a[0])), unhx(a[1]), bl, cx))
 	}
 }
 
@@ -196,6 +207,8 @@ func (f *failReader) Read(p []byte) (int, error) {
 }
 
 var _ io.Reader = (*failReader)(nil)
+
+var c12ctxBuf = make([]byte, 0, 256)
 
 func runC12(c *Ctx) {
 	r := NewRng(c.Seed, "c12")
@@ -234,6 +247,16 @@ func runC12(c *Ctx) {
 			if ref := refBlind(cn, sk.X, sk.Y, new(big.Int).SetBytes(blind), ctx); ref != nil {
 				c.Direct(ref[0].Cmp(bp.X) == 0 && ref[1].Cmp(bp.Y) == 0,
 					"blinded key is not pk × hash_to_field(XMD(curve hash, \"ECDSA Key Blind\"), blind-key bytes ‖ 0x00 ‖ context)", in)
+			}
+			// the same blind key straight afterwards with a context of the same length that differs in one byte
+			if len(ctx) > 0 {
+				ctx2 := append([]byte{}, ctx...)
+				ctx2[r.IntN(len(ctx2))] ^= 1 << r.IntN(8)
+				o2 := c.Run("c12.blind", cn, bigHex(sk.X), bigHex(sk.Y), hx(blind), hx(ctx2))
+				if ref := refBlind(cn, sk.X, sk.Y, new(big.Int).SetBytes(blind), ctx2); ref != nil {
+					c.Direct(o2 == "ok "+bigHex(ref[0])+" "+bigHex(ref[1]) && o2 != out, "blinded key for a second context (same blind key, same length) is not that of the second context",
+						map[string]any{"curve": cn, "blind": hx(blind), "ctx1": hx(ctx), "ctx2": hx(ctx2), "first": out, "second": o2})
+				}
 			}
 			// unblind inverts blind
 			c.Run("c12.unblind", cn, bigHex(bp.X), bigHex(bp.Y), hx(blind), hx(ctx))
@@ -585,9 +608,10 @@ func runC15(c *Ctx) {
 		out := c.Run("c15.blind", hx(pk), hx(blind), hx(ctx))
 		c.Count("blind")
 		bp, err := ed25519.BlindPublicKeyWithContext(pk, blind, ctx)
-		if !c.DirectOK(err == nil && out == "ok "+hxv(bp), "blinding failed", in) {
+		if !c.DirectOK(err == nil && out == "ok "+hxv(bp), "blinding failed (or differs when blind and context are adjacent in one buffer)", in) {
 			continue
 		}
+		c.Direct(bytes.Equal(bp, edRefBlind(pk, blind, ctx)), "blinded key is not pk × (SHA-512(blind ‖ 0x00 ‖ context)[0:32] mod L) (math/big reference)", in)
 		c.Run("c15.unblind", hx(bp), hx(blind), hx(ctx))
 		up, err := ed25519.UnblindPublicKeyWithContext(bp, blind, ctx)
 		c.Direct(err == nil && bytes.Equal(up, pk), "unblinding does not invert blinding", in)
